@@ -30,9 +30,16 @@ func wordsOK(z dec) bool {
 }
 
 func setThresholds() {
-	decKaratsubaThreshold = vCfgOr("kt", 30)
-	decBasicSqrThreshold = vCfgOr("bst", 10)
-	decKaratsubaSqrThreshold = vCfgOr("kst", 50)
+	// conditional stores: concurrent harness runs (race-mode replay) must not write shared variables
+	if v := vCfgOr("kt", 30); decKaratsubaThreshold != v {
+		decKaratsubaThreshold = v
+	}
+	if v := vCfgOr("bst", 10); decBasicSqrThreshold != v {
+		decBasicSqrThreshold = v
+	}
+	if v := vCfgOr("kst", 50); decKaratsubaSqrThreshold != v {
+		decKaratsubaSqrThreshold = v
+	}
 }
 
 func H_C06_mul() {
